@@ -1,15 +1,15 @@
 \* C02 leg A thorough, 3 counter replicas (nested adjust dd(dd(r1,r2),r3)): <= 2 samples each on a
-\* 3-point grid, start {0,2}, increments {0,5} (19 series per replica, 6 859 inputs), readers with
-\* at most one Seek(1). Leg B gets every input.
+\* 4-point grid (gaps within and beyond the penalty), start {0,3}, increment 5 (21 series per
+\* replica, 9 261 inputs), readers with at most one Seek (2 targets). Leg B gets every input.
 SPECIFICATION Spec
 CONSTANTS InitPen = 5
-          Grid = {0, 1, 7}
+          Grid = {0, 1, 7, 13}
           NumReps = 3
           MaxLen = 2
           Ctr = TRUE
-          Starts = {0, 2}
-          Incs = {0, 5}
-          Targets = {1}
+          Starts = {0, 3}
+          Incs = {5}
+          Targets = {1, 8}
           EmitMod = 1
           MaxSeeks = 1
           Kinds = {"f"}
